@@ -8,7 +8,7 @@
 (* exported with the model's texts for replay on the real compiler/parser.  *)
 EXTENDS XjsPrinter, XjsLexer, XjsPrograms, Json
 
-CONSTANTS Depth, Contexts, DeepContexts, Export
+CONSTANTS Depth, BinDepth, Contexts, DeepContexts, Export
 
 VARIABLES t, d
 vars == <<t, d>>
@@ -32,9 +32,17 @@ Wraps3(x) ==
         Node("arr", "", <<x>>), Node("arr", "", <<B, x>>), Node("obj", "", <<Id("k"), x>>),
         Fn(Nil, <<>>, <<Ret(x)>>), Grp(x)}
 
+\* binary operators only, one or two per precedence level, to depth BinDepth: every triple / quadruple of
+\* nested operator levels and sides (parenthesisation decisions that depend on a grandparent show at depth 3)
+RepOps == {"||", "&&", "==", "<", "+", "-", "*", "%"}
+RECURSIVE BinOnly(_)
+BinOnly(x) == x = A \/ x = B \/ (x.k = "bin" /\ x.op \in RepOps /\ BinOnly(x.c[1]) /\ BinOnly(x.c[2]))
+BinWraps(x) == {Bin(op, x, B) : op \in RepOps} \cup {Bin(op, B, x) : op \in RepOps}
+
 Atoms3 == {A, Num("1"), Node("str", "s", <<>>), Fn(Nil, <<>>, <<>>), Node("obj", "", <<>>)}
 Init == t \in Atoms3 /\ d = 0
-Next == d < Depth /\ t' \in Wraps3(t) /\ d' = d + 1
+Next == \/ d < Depth /\ t' \in Wraps3(t) /\ d' = d + 1
+        \/ d >= Depth /\ d < BinDepth /\ BinOnly(t) /\ t' \in BinWraps(t) /\ d' = d + 1
 Spec == Init /\ [][Next]_vars
 
 Ctx3(c, e) ==
